@@ -93,7 +93,9 @@ static char *ares_qcache_calc_key(const ares_dns_record_t *dnsrec)
       goto fail; /* LCOV_EXCL_LINE: OutOfMemory */
     }
 
-    status = ares_buf_append_str(buf, ares_dns_rec_type_tostr(qtype));
+    /* Numeric: every type without a mnemonic would otherwise be "UNKNOWN" and
+     * share cache entries */
+    status = ares_buf_append_num_dec(buf, (size_t)qtype, 0);
     if (status != ARES_SUCCESS) {
       goto fail; /* LCOV_EXCL_LINE: OutOfMemory */
     }
